@@ -897,10 +897,24 @@ def _wide_val(v):
   return -np.inf if v == '-inf' else float(np.float32(v))
 
 
+def _f32_overflow(x):
+  """What a correctly rounded float32 result of the float64 value x is."""
+  with np.errstate(over='ignore'):
+    return float(np.float32(x))
+
+
+def _same_loss(got, want):
+  want32 = _f32_overflow(want)
+  if not np.isfinite(want32):
+    return got == want32                      # +inf stays +inf, never NaN / 0
+  return bool(np.isfinite(got)) and abs(got - want) <= 1e-5 * max(1.0, abs(want))
+
+
 def run_ce_wide(case):
-  """Cross entropy on rows whose spread exceeds the float32 range (or holds -inf
-  at non-target classes): the loss is -log softmax(row)[t]; with the target at a
-  maximum of the row it is log(#ties at the maximum) -- finite, never NaN."""
+  """Cross entropy on rows whose spread exceeds the float32 range or that hold
+  -inf logits: the loss is -log softmax(row)[t] -- log(#ties at the maximum)
+  when the target is at a maximum, +inf when the target's probability is 0 --
+  and never NaN."""
   rows = [[_wide_val(v) for v in row] for row in case['rows']]
   targets = case['targets']
   from fedjax.core import metrics as M
@@ -908,32 +922,33 @@ def run_ce_wide(case):
   for row, t in zip(rows, targets):
     r64 = np.asarray(row, np.float64)
     shifted = r64 - r64.max()
-    want_tok.append(float(np.log(np.sum(np.exp(shifted))) - shifted[t]))
+    with np.errstate(divide='ignore'):
+      want_tok.append(float(np.log(np.sum(np.exp(shifted))) - shifted[t]))
   if len(rows) == 1 and case['metric'] == 'CrossEntropyLoss':
     st_ = M.CrossEntropyLoss().evaluate_example(
         {'y': jnp.asarray(targets[0], jnp.int32)}, jnp.asarray(rows[0], jnp.float32))
     got = float(st_.accum)
-    require(np.isfinite(got) and abs(got - want_tok[0]) <= 1e-5 * max(1.0, abs(want_tok[0])),
+    require(_same_loss(got, want_tok[0]),
             'ce_wide:CrossEntropyLoss:accum', f'rows {case["rows"]} target {targets}: {got} vs {want_tok[0]}')
-    return ['single']
+    return ['single'] + (['infinite_loss'] if not np.isfinite(want_tok[0]) else [])
   ex = {'y': jnp.asarray(targets, jnp.int32)}
   pred = jnp.asarray(rows, jnp.float32)
   masked = tuple(case['masked'])
   w = np.array([0.0 if t in masked else 1.0 for t in targets])
+  want_sum = float(sum(x for x, wi in zip(want_tok, w) if wi))
   if case['metric'] == 'SequenceTokenCrossEntropyLoss':
     st_ = M.SequenceTokenCrossEntropyLoss(masked_target_values=masked).evaluate_example(ex, pred)
-    want_acc, want_w = float(np.dot(want_tok, w)), float(w.sum())
+    want_acc, want_w = want_sum, float(w.sum())
   else:
     st_ = M.SequenceCrossEntropyLoss(masked_target_values=masked).evaluate_example(ex, pred)
-    want_acc, want_w = float(np.dot(want_tok, w)), float(w.sum() > 0)
+    want_acc, want_w = want_sum, float(w.sum() > 0)
   got_acc, got_w = float(st_.accum), float(st_.weight)
   if want_w == 0:
     want_acc = 0.0
-  require(np.isfinite(got_acc) and abs(got_acc - want_acc) <= 1e-5 * max(1.0, abs(want_acc)),
-          'ce_wide:' + case['metric'] + ':accum',
+  require(_same_loss(got_acc, want_acc), 'ce_wide:' + case['metric'] + ':accum',
           f'rows {case["rows"]} targets {targets} masked {masked}: {got_acc} vs {want_acc}')
   require(got_w == want_w, 'ce_wide:' + case['metric'] + ':weight', f'{got_w} vs {want_w}')
-  return ['sequence']
+  return ['sequence'] + (['infinite_loss'] if not np.isfinite(want_acc) else [])
 
 
 @st.composite
@@ -951,8 +966,17 @@ def ce_wide_strategy(draw, tier):
       vals = [_wide_val(v) for v in row]
     top = [i for i, v in enumerate(vals) if v == max(vals)]
     rows.append(row)
-    targets.append(draw(st.sampled_from(top)))   # target at a maximum: finite loss
+    # mostly the target at a maximum (finite loss); sometimes any class, whose
+    # probability may be exactly 0 (loss +inf)
+    targets.append(draw(st.sampled_from(top)) if draw(st.integers(0, 3)) else draw(st.integers(0, c - 1)))
   masked = draw(st.sampled_from([[], [0], [1], [0, 1]]))
+  # a masked position whose own loss is +inf would make 0 * inf: such positions
+  # are outside the metric's input domain (the loss of a padding token must be a
+  # number), so positions with an infinite loss are never masked
+  for row, t in zip(rows, targets):
+    vals = [_wide_val(v) for v in row]
+    if t in masked and (vals[t] == -np.inf or max(vals) - vals[t] > 3.0e38):
+      masked = [m for m in masked if m != t]
   return {'metric': metric, 'rows': rows, 'targets': targets, 'masked': masked}
 
 
